@@ -330,6 +330,13 @@ fn rt_strategy() -> BoxedStrategy<RtCase> {
     (any::<bool>(), 2u8..=9, 4u8..=52, 6u8..=120, 3u8..=60, any::<u8>(), any::<u64>()).prop_map(|(quad, log_n, base2k, ld, lb, mag_bits, seed)| RtCase { quad, log_n, base2k, ld, lb, mag_bits, seed }).boxed()
 }
 
+fn mem_only_comp(f: fn(&CompCase) -> Verdict) -> impl Fn(&CompCase) -> Verdict + Sync {
+    move |c| match f(c) {
+        Verdict::Fail { sig, .. } if !sig.contains("guard-damaged") => Verdict::pass(false, &["value_oracle_or_panic_ignored_here"]),
+        v => v,
+    }
+}
+
 fn mem_only(f: fn(&Case) -> Verdict) -> impl Fn(&Case) -> Verdict + Sync {
     move |c| match f(c) {
         Verdict::Fail { sig, .. } if !sig.contains("guard-damaged") => Verdict::pass(false, &["value_oracle_or_panic_ignored_here"]),
@@ -337,7 +344,7 @@ fn mem_only(f: fn(&Case) -> Verdict) -> impl Fn(&Case) -> Verdict + Sync {
     }
 }
 
-pub const RULE_C17: &str = "CKKS level (AddressSanitizer build of pzv-ckks): the generated straight-line programs of C16 (every ciphertext, plaintext and key an exact-size heap block) and the same programs with exact-size scratch windows. Oracle: no sanitizer report, guard regions intact. non-trivial = the C16 rule.";
+pub const RULE_C17: &str = "CKKS level (AddressSanitizer build of pzv-ckks): the generated straight-line programs of C16 (every ciphertext, plaintext and key an exact-size heap block) and the same programs with exact-size scratch windows; the composite operations (multiply-add family, sums, dot products, products of many) on roomy and on exact-size scratch. Oracle: no sanitizer report, guard regions intact. non-trivial = the C16 rule.";
 
 fn op_strategy() -> impl Strategy<Value = Op> {
     prop_oneof![
@@ -392,6 +399,11 @@ fn main() {
         if prop == "C10" {
             std::process::exit(ctx.replay_case::<Case, _>(&sub, &case, test_xb));
         }
+        if prop == "C17" && sub.starts_with("asan_ckks_composite") {
+            let _ = pzv_common::driver::arm_sanitizer_callback(&ctx.property, &ctx.root);
+            let f: fn(&CompCase) -> Verdict = if sub == "asan_ckks_composite_exact_scratch" { test_c12_composite } else { test_composite };
+            std::process::exit(ctx.replay_case::<CompCase, _>(&sub, &case, mem_only_comp(f)));
+        }
         if prop == "C17" {
             let _ = pzv_common::driver::arm_sanitizer_callback(&ctx.property, &ctx.root);
             let f: fn(&Case) -> Verdict = if sub == "asan_ckks_exact_scratch" { test_c12 } else { test };
@@ -415,6 +427,8 @@ fn main() {
         let t = ctx.tier;
         ctx.run_sub("asan_ckks_programs", t.pick(3_000, 60_000), 64, strategy, mem_only(test));
         ctx.run_sub("asan_ckks_exact_scratch", t.pick(1_500, 30_000), 64, strategy, mem_only(test_c12));
+        ctx.run_sub("asan_ckks_composite", t.pick(1_500, 30_000), 64, comp_strategy, mem_only_comp(test_composite));
+        ctx.run_sub("asan_ckks_composite_exact_scratch", t.pick(1_000, 20_000), 64, comp_strategy, mem_only_comp(test_c12_composite));
         let code = ctx.finish(RULE_C17, &["value / metadata oracles and clean panics are ignored here (C16 / C12 own them)"], &[]);
         std::process::exit(code);
     }
